@@ -171,11 +171,11 @@ pub fn run(o: &Opts) -> Report {
     // values that only JSON can build
     let scs = scen::all_scenarios();
     for &code in SUPPORTED.iter() {
-        for (_, _name, path) in scs.iter().filter(|s| s.0 == code).take(if o.thorough() { 50 } else { 3 }) {
+        for (_, _name, path) in scs.iter().filter(|s| s.0 == code).take(if o.thorough() { 50 } else { 50 }) {
             let Some(schema) = scen::load(path) else { continue };
             let Ok(j) = scen::draw(&schema) else { continue };
             let singles = c04::single_mutants(&j);
-            let step = if o.thorough() { 1 } else { 3 };
+            let step = 1;
             for (i, (desc, m)) in singles.iter().enumerate() {
                 if i % step != 0 {
                     continue;
